@@ -224,6 +224,7 @@ def robust_scenario(rng, tier_quick):
     if rng.random() < 0.8:
         # typed garbage mostly is an abort (a lone ESC) or an accept: keep most lives going so that the later stimuli count
         extra += ["--bind", "esc:ignore,ctrl-c:ignore,ctrl-g:ignore,ctrl-q:ignore,enter:ignore,ctrl-d:ignore,double-click:ignore,ctrl-z:ignore"]
+    extra += ["--bind", "f9:toggle-sort"]       # the keyboard probe at the end of the life (visible through GET whatever sections are hidden)
     sep = b"\0" if "--read0" in extra else b"\n"
     n = rng.choice([0, 1, 3, 8, 30, 200])
     items = [rng.choice(HOSTILE) for _ in range(n)]
@@ -249,7 +250,9 @@ def robust_scenario(rng, tier_quick):
             steps.append(["post", rng.choice(["toggle-preview", "toggle-preview-wrap", "preview-down", "preview-page-up", "toggle-header", "toggle-input",
                                               "change-preview-window(right,80%|hidden|up,1)", "toggle-wrap", "offset-up", "offset-down", "jump",
                                               "change-header(x)", "change-prompt(%s)" % ("p" * rng.choice([1, 30])), "refresh-preview",
-                                              "change-border-label(zz)", "toggle-track", "hide-header", "show-header", "clear-screen"])])
+                                              "change-border-label(zz)", "toggle-track", "hide-header", "show-header", "clear-screen",
+                                              "change-query(qqzzqq)+execute-silent(cat {f} {+f} > /dev/null)+execute-silent(true {+f})",
+                                              "execute-silent(cat {f} > /dev/null)"])])
     return {"kind": "R", "cfg": cfg, "extra": extra, "data": data.decode("latin-1"), "size": list(size), "steps": steps}
 
 
@@ -272,12 +275,14 @@ def sweep_scenario(rng, k):
         cfg = {"full": False, "mouse": False, "clear": True, "height": rng.choice(["10", "50%", "~5"])}
     extra = list(SWEEP_OPTS[k % len(SWEEP_OPTS)])
     extra += ["--bind", "esc:ignore,ctrl-c:ignore,ctrl-g:ignore,ctrl-q:ignore,enter:ignore,ctrl-d:ignore,double-click:ignore,ctrl-z:ignore"]
+    extra += ["--bind", "f9:toggle-sort"]
     items = [b"L" * 300, b"\xe6\xbc\xa2" * 120, b"short", b"a b c " * 40, b"e\xcc\x81" * 90, b"x"] + [rng.choice(HOSTILE) for _ in range(6)]
     data = b"".join(i.replace(b"\n", b"") + b"\n" for i in items)
     widths = [12, 8, 6, 5, 4, 3, 2, 1]
     heights = [8, 5, 4, 3, 2, 1]
     steps = []
-    pokes = ["down", "up", "toggle+down", "put(a)", "backward-delete-char", "last", "first", "toggle-preview", "clear-screen"]
+    pokes = ["down", "up", "toggle+down", "put(a)", "backward-delete-char", "last", "first", "toggle-preview", "clear-screen",
+             "change-query(qqzzqq)+execute-silent(cat {f} {+f} > /dev/null)+clear-query"]
     for _ in range(3):
         for rep in mouse_gesture(rng, 80, 24):
             steps.append(["raw", rep])
@@ -345,6 +350,39 @@ def run_robust(ctx, fzf, sid, sc):
         own = False
         if not life.gone():
             life.probe_alive()
+            if life.alive and not life.gone() and "f9:toggle-sort" in sc["extra"]:
+                # the keyboard must still be served: end a paste that the typed bytes may have opened, then press the probe
+                # key (a few times: a pending partial sequence or jump mode may swallow the first one)
+                seen = False
+                try:
+                    t.tmux("send-keys", "-t", "s", "-H", "1b", "5b", "32", "30", "31", "7e")
+                    for attempt in range(4):
+                        time.sleep(0.3)
+                        try:
+                            before = t.get(limit=1, timeout=10)
+                        except Exception:
+                            before = None
+                        if not before:
+                            break           # the socket has stopped answering: probe_alive below decides
+                        t.keys("F9")
+                        t1 = time.time()
+                        while time.time() - t1 < 1.5 and not seen and not life.gone():
+                            g = None
+                            try:
+                                g = t.get(limit=1, timeout=10)
+                            except Exception:
+                                pass
+                            seen = bool(g) and g.get("sort") != before.get("sort")
+                            if not seen:
+                                time.sleep(0.1)
+                        if seen or life.gone():
+                            break
+                except Infra:
+                    if not life.gone():
+                        raise
+                if not seen and not life.gone():
+                    life.alive = False          # answers on the socket but no longer reads the keyboard
+                    life.notes.append("keyboard probe (F9 -> toggle-sort) never took effect")
             if life.alive and not life.gone():
                 own = True
                 life.mark({"ev": "req", "how": "abort"})
